@@ -431,9 +431,7 @@ def spec_py(c, phases_of):
 def known_class_keys(c):
     """keys of which the known-finding class 'eclass-unsets-accumulated-var' may disturb the value"""
     eapi = c["eapi"]
-    un = {o[1] for ops in c["ecl"].values() for o in ops if o[0] == "U"}
-    # only eclasses that are actually sourced count
-    used = set(sourcings(c, c["ebuild"]))
+    used = set(sourcings(c, c["ebuild"]))  # only eclasses that are actually sourced count
     un = {o[1] for e in used for o in c["ecl"][e] if o[0] == "U"}
     ks = {v for v in un if v < 7 or v in (7, 8)}
     if 2 in ks and eapi <= 3:
@@ -682,11 +680,15 @@ def main(chk: Check):
         tables.regenerate(sys.modules[__name__])
     except TableError as e:
         chk.violation("table", {"what": f"cannot regenerate Tables_C49.v from the source: {e}"}, no_input=True)
-    ok = chk.build(["C49/Prop_C49.vo"])
-    if ok:
-        chk.check_assumptions("C49/Prop_C49.v")
-    chk.lint(["C49"])
-    chk.check_fingerprint(ANCHORS)
+    chk.check_fingerprint(ANCHORS)   # first: it decides the budgets
+
+    def build_and_check():
+        # runs in the main thread while the daemons and the bash drivers are already working
+        ok = chk.build(["C49/Prop_C49.vo"])
+        if ok:
+            chk.check_assumptions("C49/Prop_C49.v")
+        chk.lint(["C49"])
+        return ok
 
     env_n = os.environ.get("VERIF_C49_CASES")
     n_daemon = chk.n(4, 120)      # random cases also run through the real daemon (after the fixed ones)
@@ -712,7 +714,7 @@ def main(chk: Check):
         for i, c in enumerate(cases):
             impl.write_case(i, c)
         impl.open_repo()
-        run(chk, impl, cases, daemon_idx, ok)
+        run(chk, impl, cases, daemon_idx, build_and_check)
     finally:
         if impl is not None:
             impl.close()
@@ -733,7 +735,7 @@ def nontrivial_key(c):
     return None
 
 
-def run(chk, impl, cases, daemon_idx, ok):
+def run(chk, impl, cases, daemon_idx, build_and_check):
     import time as _t
     all_idx = list(range(len(cases)))
     # ---- missing-eclass cases (malformed stream): run last on two of the daemons (the daemon is shut down by
@@ -750,7 +752,7 @@ def run(chk, impl, cases, daemon_idx, ok):
     started = impl.direct_start(all_idx, cases, 8 if len(all_idx) < 400 else 12)
     chk.count("direct", len(all_idx))
     # ---- daemon stream
-    nthreads = 6 if daemon_idx else 0
+    nthreads = (8 if len(daemon_idx) < 40 else 6) if daemon_idx else 0
 
     def worker(k):
         t0 = _t.time()
@@ -765,8 +767,13 @@ def run(chk, impl, cases, daemon_idx, ok):
     daemon = {}
     if nthreads:
         with cf.ThreadPoolExecutor(max_workers=nthreads) as ex:
-            for part in ex.map(worker, range(nthreads)):
-                daemon.update(part)
+            futs = [ex.submit(worker, k) for k in range(nthreads)]
+            ok = build_and_check()
+            chk.note("t_after_build=%.1f" % (_t.time() - chk.t0))
+            for f in futs:
+                daemon.update(f.result())
+    else:
+        ok = build_and_check()
     chk.count("daemon", len(daemon_idx))
     chk.note("daemon start-up times: %s" % [daemon.get(("t_init", k)) for k in range(nthreads)])
     chk.note("t_after_daemon=%.1f" % (_t.time() - chk.t0))
@@ -800,7 +807,7 @@ def run(chk, impl, cases, daemon_idx, ok):
     # ---- Coq: model (A) and spec (B), one cases stream: daemon results first, then direct results
     evals = ["mismatches run_meta cases", "mismatches spec_meta cases"]
     rows = [("daemon", i, daemon[i]) for i in daemon_idx] + [("direct", i, direct[i]) for i in all_idx]
-    shard = 48 if len(rows) <= 600 else 320
+    shard = 18 if len(rows) <= 200 else 120
     r = None
     if ok:
         r = chk.coq_eval("meta", IMPORTS, "N * prog", [(coq_case(cases[i]), res) for _, i, res in rows], evals,
@@ -857,7 +864,8 @@ def run(chk, impl, cases, daemon_idx, ok):
 
 
 def describe(c, i):
-    return {"eapi": c["eapi"], "ebuild": f"EAPI={c['eapi']}\n" + render_ops(c["ebuild"], i, False),
+    return {"case": {"eapi": c["eapi"], "ebuild": c["ebuild"], "ecl": {str(k): v for k, v in c["ecl"].items()}},
+            "eapi": c["eapi"], "ebuild": f"EAPI={c['eapi']}\n" + render_ops(c["ebuild"], i, False),
             "eclasses": {f"c{i}e{e}": render_ops(o, i, True) for e, o in sorted(c["ecl"].items())}}
 
 
@@ -891,4 +899,39 @@ def bad_keys(c, res, impl):
 
 
 def replay(chk, data):
-    print("replay: the failing ebuild and eclasses are in detail.input (bash text); re-run with VERIF_SEED=%s" % data.get("seed"))
+    """re-run one recorded case: real daemon, directly driven bash, the statement's oracle, model and spec in Coq"""
+    inp = (data.get("detail") or {}).get("input") or {}
+    raw = inp.get("case")
+    if not raw:
+        print("replay: no structured case recorded in this file (see detail)")
+        return
+    def op(o):
+        return tuple(list(o[:2]) + [list(o[2])]) if o[0] in ("A", "P") else tuple(o)
+    c = {"eapi": raw["eapi"], "ebuild": [op(o) for o in raw["ebuild"]],
+         "ecl": {int(k): [op(o) for o in v] for k, v in raw["ecl"].items()}}
+    root = tempfile.mkdtemp(prefix="verif_C49_replay_")
+    impl = None
+    try:
+        impl = Impl(chk, root)
+        impl.write_case(0, c)
+        impl.open_repo()
+        st = impl.direct_start([0], [c], 1)
+        d = impl_call(impl.daemon_meta, impl.new_ebp(), 0, kinds={"*": "MetadataException"})
+        x = impl.direct_finish(st, [0])[0]
+        print("ebuild:\n" + describe(c, 0)["ebuild"])
+        for k, v in describe(c, 0)["eclasses"].items():
+            print(f"{k}.eclass:\n{v}")
+        print("implementation (daemon):", d)
+        print("implementation (direct):", x)
+        print("statement's oracle      :", spec_view(c, impl))
+        print("disagreeing keys        :", [VARS[b] if isinstance(b, int) else b for b in bad_keys(c, d, impl)])
+        if chk.build(["C49/Spec_C49.vo"]):
+            r = chk.coq_eval("replay", IMPORTS, "N * prog", [(coq_case(c), d)],
+                             ["mismatches run_meta cases", "mismatches spec_meta cases"], preamble="Open Scope N_scope.")
+            if r is not None:
+                print("Model_C49.run_meta agrees with the implementation:", not r[0])
+                print("Spec_C49.spec_meta accepts the implementation's result:", not r[1])
+    finally:
+        if impl is not None:
+            impl.close()
+        shutil.rmtree(root, ignore_errors=True)
